@@ -460,6 +460,20 @@ def concretize_inputs(model, env, st):
 
 def handle_raise(ex, c, qual, st, val, env, snapshot):
     raises = c.get('raises', {})
+    # exceptional postconditions: clauses / trace clauses that must hold when the function exits with this exception
+    for exc, clauses in (c.get('raises_ensures') or {}).items():
+        if ex.exc_isinstance(val.cls, exc):
+            post = st.fork()
+            post.spec = True
+            post.env = dict(env)
+            post.old = snapshot
+            for i, e in enumerate(clauses):
+                if callable(e):
+                    for oid, g, text in e(ex, st, post, val):
+                        ex.oblige(st, g, '%s.on_%s.%s' % (qual, exc, oid), 'trace', qual, {'clause': text})
+                else:
+                    ex.oblige(st, ex.spec_bool(post, e), '%s.on_%s#%d' % (qual, exc, i), 'ensures', qual,
+                              {'clause': clause_text(e)})
     for exc, cond in raises.items():
         if ex.exc_isinstance(val.cls, exc):
             if cond is True:
